@@ -298,18 +298,33 @@ def parse_output(stmts, ci, sub=False):
     return fields
 
 
+UNGUARDED = []     # local counts read from the stream without initialiser and without a check of the stream state
+
+
 def parse_input(stmts, ci, since=None):
     fields = []
     locals_ = {}
     i = 0
     pending_local = {}
+    uninit = set()
     while i < len(stmts):
         st = stmts[i]
         if st[0] == "stmt":
             t = st[1]
+            md = re.match(r"int\s+(\w+)$", t)
+            if md:
+                uninit.add(md.group(1))
+            if t.startswith("in >>") or t.startswith("in>>"):
+                nxt = stmts[i + 1] if i + 1 < len(stmts) else None
+                checked = bool(nxt) and nxt[0] == "if" and re.match(r"^in\.fail\(\)$", nxt[1]) is not None
+                for p0 in split_shift(t, ">>")[1:]:
+                    # a local that later drives a loop / reserve(): it must hold a value even when the stream has already failed
+                    if p0.strip() in uninit and not checked and any(re.search(r"\b%s\b" % re.escape(p0.strip()), (x[1] if x[0] != "for" else x[1])) and (x[0] == "for" or "reserve" in x[1])
+                                                                      for x in stmts[i + 1:]):
+                        UNGUARDED.append("%s: %s" % (getattr(ci, "cls", "InterrogateComponent"), p0.strip()))
             if re.match(r"InterrogateComponent::input\(in\)$", t):
                 fields += ci.component_in
-            elif re.match(r"int\s+\w+$", t) or re.match(r"std::string\s+\w+$", t):
+            elif re.match(r"int\s+\w+(\s*=\s*0)?$", t) or re.match(r"std::string\s+\w+$", t):
                 pass
             elif t.startswith("in >>") or t.startswith("in>>"):
                 for p in split_shift(t, ">>")[1:]:
@@ -355,7 +370,9 @@ def parse_input(stmts, ci, since=None):
         elif st[0] == "if":
             mv = re.match(r"^InterrogateDatabase::get_file_minor_version\(\)\s*>=\s*(\d+)$", st[1])
             mp = re.match(r"^(\w+)\(\)$", st[1])
-            if mv:
+            if re.match(r"^in\.fail\(\)$", st[1]) and all(x[0] == "stmt" and x[1] == "return" for x in st[2]):
+                pass          # `if (in.fail()) return;` after a count: a failed stream ends the record, the layout is unchanged
+            elif mv:
                 fields += parse_input(st[2], ci, since=int(mv.group(1)))
             elif mp and mp.group(1) in ci.preds:
                 flag, mask = ci.preds[mp.group(1)]
@@ -521,6 +538,7 @@ def render():
              "Do not edit: the committed copy is what the pinned tree yields. -/",
              "namespace IgVerif.Gen", "open IgVerif", ""]
     failed = None
+    del UNGUARDED[:]
     try:
         r = extract()
     except Exception as e:  # extraction failure is a reported break, never silence
@@ -531,6 +549,8 @@ def render():
             r = extract()
         finally:
             iglib.PINNED = False
+    lines += ["/-- counts that input() reads into an uninitialised local and uses (loop bound, reserve) without looking at the stream state -/",
+              "def unguardedCounts : List String := [%s]" % ", ".join(lean_str(u) for u in sorted(set(UNGUARDED))), ""]
     lines += ["def dbSchemaExtractionFailed : Bool := %s" % ("true" if failed else "false"),
               "def dbSchemaExtractionError : String := %s" % lean_str(failed or ""), ""]
     for view, attr in (("out", "out"), ("in", "inp")):
